@@ -129,6 +129,8 @@ class TwinSpace(object):
         self.np = shim.make_numpy_shim()
         self.stubs.setdefault('numpy', self.np)
         self.stubs.setdefault('numpy.ma', self.np.ma)
+        self.stubs.setdefault('scipy.interpolate',
+                              shim.make_scipy_interpolate_stub())
         self.patch_int = patch_int
         self.no_twin = set(no_twin)
         self.entered = {}
